@@ -244,6 +244,8 @@ def inventory(ctx, n_models):
         wit = {"model": repr([node_fields(n) for n in nodes])[:1500]}
         try:
             text = model.to_str()
+            if model.to_str() != text or repr(model.to_llsd()) != repr(model.to_llsd()):
+                ctx.violation("inventory:serialisation-not-repeatable", "serialising the same model twice gave different output", wit)
             back = InventoryModel.from_str(text)
         except Exception as e:
             ctx.violation("inventory-text:raises:" + type(e).__name__, "legacy text round trip raised", dict(wit, exc=repr(e)[:300]))
